@@ -46,6 +46,17 @@ func sources(rng *rand.Rand, tier string) [][]interface{} {
 		{3, "3", 3.0, []interface{}{3}, o(3, 3), nil, true, false},
 		{0, -1, -2, 1, 2, -1},
 	}
+	// beyond 12 elements sort.Slice stops being an insertion sort: stability and
+	// grouping need long sources with many tied keys
+	for _, ln := range []int{13, 20, 40} {
+		a := make([]interface{}, ln)
+		b := make([]interface{}, ln)
+		for j := range a {
+			a[j] = o((j*7)%3, j)
+			b[j] = (j * 5) % 4
+		}
+		s = append(s, a, b)
+	}
 	n := 6
 	if tier == "thorough" {
 		n = 60
@@ -173,6 +184,9 @@ func main() {
 			break
 		}
 		n := len(s)
+		if n > 12 {
+			continue
+		}
 		for o := 0; o <= n+2; o++ {
 			for cnt := 0; cnt <= n+2; cnt++ {
 				l, p := lim(o, cnt, (o+cnt+si)%3)
